@@ -96,7 +96,7 @@ def _pkey(pl):
     return (pl.local, tuple(steps))
 
 
-def const_walk(bi, start_bb, stop_at, max_steps=6000):
+def const_walk(bi, start_bb, stop_at, max_steps=6000, blocked_edges=()):
     """Walk from start_bb following only feasible arms of switches whose operand holds a constant assigned on the path
     (small constant propagation over places: locals, fields of aggregates built on the path, enum variants and their
     payloads, `!b`, moves of whole values -- enough to follow `true` / `false` / `Ok(..)` through the return place of a
@@ -233,6 +233,8 @@ def const_walk(bi, start_bb, stop_at, max_steps=6000):
             labels.add("diverge")
         env2 = tuple(sorted(e.items(), key=repr))
         for s2 in succs:
+            if (bb, s2) in blocked_edges:
+                continue
             stack.append((s2, env2))
     if steps >= max_steps:
         labels.add("unknown")
